@@ -572,6 +572,8 @@ func TestPropArchiveWriter(t *testing.T) {
 type PoisonCase struct {
 	World   world.World `json:"world"`
 	DelayUs int         `json:"delay_us"` // how long after the failing call the second one starts
+	// Close is called from another goroutine this long after the first Add call started (0 = only afterwards)
+	CloseUs int `json:"close_us,omitempty"`
 }
 
 var subPoison = ev.Register("concurrentpoison", func(c PoisonCase) error {
@@ -612,6 +614,16 @@ var subPoison = ev.Register("concurrentpoison", func(c PoisonCase) error {
 			results[i] = run.DoCall(ctx, c.World.Script[i])
 		}(i)
 	}
+	closedConcurrently := false
+	if c.CloseUs > 0 {
+		closedConcurrently = true
+		wg.Add(1)
+		go func() {
+			defer wg.Done()
+			time.Sleep(time.Duration(c.CloseUs) * time.Microsecond)
+			run.Close()
+		}()
+	}
 	wg.Wait()
 	ev.NonTrivial(c, "failing-call-with-waiting-calls")
 	after, err := fsx.Snapshot(arena, func(rel string) bool { return rel == "bundle" })
@@ -634,6 +646,17 @@ var subPoison = ev.Register("concurrentpoison", func(c PoisonCase) error {
 		ev.Label("fault-did-not-surface")
 		return nil
 	}
+	if closedConcurrently {
+		// Close ran while the calls were in flight: whatever the interleaving, a build in which a call
+		// reported an error yields no bundle, and its target directory does not open as one
+		if run.Bundle != nil {
+			return fmt.Errorf("an Add call reported an error and Close, called while it was running, returned a bundle")
+		}
+		if b, err := sourcebundle.OpenDir(target); err == nil && b != nil {
+			return fmt.Errorf("an Add call reported an error, Close was called while it was running, and the target directory opens as a bundle")
+		}
+		return nil
+	}
 	run.Close()
 	if run.ClosePanic == nil {
 		return fmt.Errorf("an Add call reported an error, but Close returned (bundle=%v err=%v): no bundle may come out of a failed build", run.Bundle != nil, run.CloseErr)
@@ -652,6 +675,6 @@ func TestPropConcurrentPoison(t *testing.T) {
 		if len(w.Script) == 1 {
 			w.Script = append(w.Script, world.AddCall{Kind: "remote", Addr: w.Remotes[0].Addr + "//modules/a"})
 		}
-		return PoisonCase{World: w, DelayUs: rapid.SampledFrom([]int{0, 50, 200, 600}).Draw(t, "delay")}
+		return PoisonCase{World: w, DelayUs: rapid.SampledFrom([]int{0, 50, 200, 600}).Draw(t, "delay"), CloseUs: rapid.SampledFrom([]int{0, 0, 100, 400, 1500}).Draw(t, "closeafter")}
 	})
 }
